@@ -236,10 +236,23 @@ func (p *Path) runBlocks(fr *Frame, b *ssa.BasicBlock, stop *ssa.BasicBlock) Val
 					if fr.ifCount[in] > p.h.Unwind {
 						p.end("unwind", "unwinding assertion: symbolic branch at %s taken more than %d times", p.where(), p.h.Unwind)
 					}
-					if p.tryMerge(fr, in, cond, stop) {
+					merged, taken := p.decideIf(fr, in, cond, stop)
+					if merged {
 						next = fr.block // tryMerge positioned us at the join block
+						if next == exitSentinel && stop == nil {
+							v := fr.pendingRet
+							fr.pendingRet, fr.hasPendingRet = nil, false
+							return v
+						}
 						goto nextBlock
 					}
+					if taken {
+						next = b.Succs[0]
+					} else {
+						next = b.Succs[1]
+					}
+					fr.prev = b
+					goto nextBlock
 				}
 				if p.branch(cond) {
 					next = b.Succs[0]
@@ -253,21 +266,26 @@ func (p *Path) runBlocks(fr *Frame, b *ssa.BasicBlock, stop *ssa.BasicBlock) Val
 				fr.prev = b
 				goto nextBlock
 			case *ssa.Return:
-				if stop != nil {
+				if stop != nil && stop != exitSentinel {
 					panic(mergeAbort{"return inside merge region"})
 				}
+				var rv Value
 				switch len(in.Results) {
 				case 0:
-					return nil
 				case 1:
-					return p.get(fr, in.Results[0])
+					rv = p.get(fr, in.Results[0])
 				default:
 					tv := make(TupleV, len(in.Results))
 					for i, r := range in.Results {
 						tv[i] = p.get(fr, r)
 					}
-					return tv
+					rv = tv
 				}
+				if stop == exitSentinel {
+					fr.pendingRet, fr.hasPendingRet = rv, true
+					return nil
+				}
+				return rv
 			case *ssa.Panic:
 				if p.noFork {
 					panic(mergeAbort{"panic in merge region"})
@@ -360,6 +378,48 @@ func (p *Path) nilCheck(ptr *PtrV, what string) {
 		p.obligation(p.tc.False, "panic", "nil-deref", what)
 		p.end("gopanic", "%s", what)
 	}
+}
+
+// decideIf handles a symbolic If: inside a merge region it only merges; at the
+// top level it first asks which outcomes are feasible (a forced branch is
+// followed, never merged), then tries to ite-merge the two arms, and forks
+// otherwise. Merges are recorded in the decision trace (value 2) so that a
+// replayed prefix reproduces them.
+func (p *Path) decideIf(fr *Frame, in *ssa.If, cond *Term, stop *ssa.BasicBlock) (merged, taken bool) {
+	if p.noFork {
+		if p.tryMerge(fr, in, cond, stop) {
+			return true, false
+		}
+		panic(mergeAbort{"symbolic branch in merge region"})
+	}
+	if p.pos < len(p.prefix) {
+		if p.prefix[p.pos] == 2 {
+			p.pos++
+			p.trace = append(p.trace, 2)
+			if !p.tryMerge(fr, in, cond, stop) {
+				p.end("internal", "replay divergence: merge not reproducible at %s", p.where())
+			}
+			return true, false
+		}
+		return false, p.branch(cond)
+	}
+	fT, fF := p.probe(cond)
+	switch {
+	case !fT && !fF:
+		p.end("infeasible", "both branch outcomes infeasible")
+	case !fT:
+		p.take(cond, 0)
+		return false, false
+	case !fF:
+		p.take(cond, 1)
+		return false, true
+	}
+	if p.tryMerge(fr, in, cond, stop) {
+		p.pos++
+		p.trace = append(p.trace, 2)
+		return true, false
+	}
+	return false, p.fork(cond)
 }
 
 // ---------- instruction evaluation ----------
